@@ -11,6 +11,7 @@ from typing import Any, Dict, List, Optional, Tuple
 from harness.extract import nondet as x_nondet
 from harness.extract import nondet_seeding as x_seeding
 from harness.extract import nondet_output as x_output
+from harness.extract import nondet_loops as x_loops
 from harness.extract import sharedstate as x_shared  # C04's extractor, imported read-only
 from harness.lib import scen
 from harness.lib.core import REPO, SRC, VERIF, Ctx, Rng, lean_lock, run_driver
@@ -70,7 +71,7 @@ MANIFEST = {
                  "rig with a re-seed oracle",
     "design_ref": "5/C03",
 }
-MODULES = ["PrimaiteModel.Props.C03"]
+MODULES = ["PrimaiteModel.Props.C03", "PrimaiteModel.Props.C03Loops"]
 # basis of every reason of the discharge table (mirrors `Discharge.basis` in Lemmas/NondetDischarge.lean; the split itself is the
 # theorem C03_discharge_counts)
 BASIS = {**{r: "mechanical" for r in ("fixedWidthReading", "fixedLenSecret", "clockNotRead", "seededRng", "seeding", "unseededByConfig",
@@ -940,6 +941,7 @@ def run(ctx: Ctx):
         ok_x = ctx.extract("Nondet", x_nondet.emit)
         ok_s = ctx.extract("NondetSeeding", x_seeding.emit)
         ctx.extract("NondetOutput", x_output.emit)
+        ctx.extract("NondetLoops", x_loops.emit)
         ctx.extract("SharedState", x_shared.emit)
         proved = ctx.prove(MODULES, exes=[EXE], leanchecker=ctx.thorough)
     mark("extract+prove")
